@@ -2033,3 +2033,176 @@ def c18(ctx):
                         if txt.count('"e":"OriginRecv"') >= 2 or '"status":503' in txt or '"form":"origin"' in run[0] or '"form":"malformed"' in run[0]:
                             ctx.nontrivial.add(hash(txt))
                             ctx.add_sample([json.loads(x) for x in run[:12]])
+
+
+# ---------------------------------------------------------------------------
+# C17: SOCKS4/5 proxy
+
+SOCKS_MUT5 = [("version", [0, 4, 6, 255]), ("nmethods", [0, 2, 255]), ("method", [1, 2]), ("version2", [0, 4, 6]),
+              ("command", [0, 4, 255]), ("rsv", [1]), ("atyp", [0, 2, 4, 5]), ("namelen", [0, 2, 255])]
+SOCKS_MUT4 = [("version", [0, 5, 6]), ("command", [0, 3, 255]), ("userid", [1, 65])]
+
+
+def rand_socks_program(rng):
+    ver = rng.choice([5, 5, 5, 4])
+    sessions = []
+    t = 10
+    sid = 0
+    def add(**kw):
+        nonlocal sid, t
+        sid += 1
+        if sid > 8:
+            return
+        s = {"id": sid, "start_at": t}
+        s.update(kw)
+        sessions.append(s)
+        t += rng.choice([1000000, 1000000, 0, 300000])
+    n = rng.randint(2, 6)
+    for _ in range(n):
+        r = rng.random()
+        if r < 0.5:
+            cmd = rng.choice(["connect", "connect", "connect", "bind"] + (["udp"] if ver == 5 else []))
+            addr = rng.choice(["ip", "ip", "name", "name3", "name2", "name1", "badname"]) if (ver == 5 and cmd == "connect") else "ip"
+            target = rng.choice(["up", "up", "up", "refuse", "unres"]) if cmd == "connect" else "up"
+            if addr == "badname":
+                target = "unres"
+            elif addr != "ip" and target == "unres":
+                addr = "badname"
+            up = rng.choice([0, 1, 100, 3000, 20000]) if cmd == "connect" else 0
+            down = rng.choice([0, 1, 300, 5000]) if cmd in ("connect", "bind") else 0
+            if cmd == "connect" and target != "up":
+                up = down = 0
+            kw = {"cmd": cmd, "addr": addr, "target": target, "up": up, "down": down,
+                  "cuts": [rng.choice([1, 2, 100, 1475, 4000]) for _ in range(rng.randint(0, 4))]}
+            if cmd == "udp":
+                kw["ndgrams"] = rng.randint(1, 5)
+                kw["udp_via"] = rng.choice(["ip", "name", "mixed", "short-first"])
+            add(**kw)
+        elif r < 0.8:
+            f, vals = rng.choice(SOCKS_MUT5 if ver == 5 else SOCKS_MUT4)
+            kw = {"cmd": "connect", "addr": "name" if f == "namelen" else "ip", "target": "up", "up": 5, "down": 5,
+                  "mutate": f, "mutval": rng.choice(vals)}
+            add(**kw)
+            add(cmd="connect", addr="ip", target="up", up=50, down=50)   # a fresh valid session must still succeed
+        else:
+            kw = {"cmd": rng.choice(["connect", "bind"]), "addr": rng.choice(["ip", "name"]) if ver == 5 else "ip", "target": "up",
+                  "up": 5, "down": 5, "eof_at": rng.randint(0, 20)}
+            if kw["cmd"] == "bind":
+                kw["addr"] = "ip"
+            add(**kw)
+            add(cmd="connect", addr="ip", target="up", up=50, down=50)
+    return {"version": ver, "sessions": sessions, "end_at": t + 4000000}
+
+
+def socks_sweep(path):
+    """every single-field mutation and every EOF position, each followed by a valid session; plus the known
+    trouble spots: 1- and 3-character host names, UDP by cached name, short datagram"""
+    n = 0
+    with open(path, "w") as f:
+        def w(ver, ss):
+            nonlocal n
+            for k, s in enumerate(ss):
+                s["id"] = k + 1
+                s.setdefault("start_at", 10 + k * 1500000)
+            f.write(json.dumps({"version": ver, "sessions": ss, "end_at": 10 + len(ss) * 1500000 + 3000000}) + "\n")
+            n += 1
+        good = lambda: {"cmd": "connect", "addr": "ip", "target": "up", "up": 40, "down": 40}
+        for ver, muts in ((5, SOCKS_MUT5), (4, SOCKS_MUT4)):
+            for fld, vals in muts:
+                for v in vals:
+                    w(ver, [{"cmd": "connect", "addr": "name" if fld == "namelen" else "ip", "target": "up", "up": 5, "down": 5,
+                             "mutate": fld, "mutval": v}, good()])
+            for addr in (["ip", "name"] if ver == 5 else ["ip"]):
+                for pos in range(0, 22):
+                    w(ver, [{"cmd": "connect", "addr": addr, "target": "up", "up": 5, "down": 5, "eof_at": pos}, good()])
+        w(5, [{"cmd": "connect", "addr": "name3", "target": "up", "up": 100, "down": 100}, good()])
+        w(5, [{"cmd": "connect", "addr": "name1", "target": "up", "up": 100, "down": 100}, good()])
+        w(5, [{"cmd": "connect", "addr": "name2", "target": "up", "up": 100, "down": 100}, good()])
+        for via in ("ip", "name", "mixed", "short-first"):
+            w(5, [{"cmd": "udp", "addr": "ip", "target": "up", "ndgrams": 4, "udp_via": via}, good()])
+        w(5, [{"cmd": "bind", "addr": "ip", "target": "up", "up": 0, "down": 500}, good()])
+        w(4, [{"cmd": "bind", "addr": "ip", "target": "up", "up": 0, "down": 500}, good()])
+        w(4, [{"cmd": "connect", "addr": "ip", "target": "refuse", "up": 0, "down": 0}, good()])
+    return n
+
+
+def classify_socks_reject(rj):
+    lines = rj["lines"]
+    try:
+        e = json.loads(rj["event"])
+    except ValueError:
+        e = {"e": "end"}
+    cfg = json.loads(lines[0])
+    n = e.get("e")
+    if n == "End":
+        sj = rj.get("state_json") or {}
+        miss = []
+        for sid, st in (sj.get("st") or {}).items():
+            dsc = cfg["sessions"].get(sid)
+            if dsc and dsc["valid"] and st["st"] != "idle":
+                want = 2 if dsc["cmd"] == "bind" else 1
+                if st["rep"] < want:
+                    miss.append("no-reply(%s,%s)" % (dsc["cmd"], dsc.get("addr")))
+                elif st["ok"] and (st["up"] < dsc["up"] or st["dn"] < dsc["down"]):
+                    miss.append("relay-incomplete(%s)" % dsc["cmd"])
+                elif st["ok"] and dsc["cmd"] == "udp" and (st["dt"] < dsc["ndgrams"] or st["db"] < dsc["ndgrams"]):
+                    miss.append("udp-relay-incomplete")
+        return "socks.end:" + ",".join(sorted(set(miss)) or ["?"])
+    if n == "Reply":
+        return "socks.reply(code=%s)" % e.get("code")
+    if n == "Counts":
+        return "socks.command-counters"
+    if n == "Closed":
+        return "socks.healthy-session-closed"
+    return "socks.reject@%s" % n
+
+
+@check("C17", "model_checking")
+def c17(ctx):
+    import random
+    q = ctx.tier == "quick"
+    ctx.rule = ("SOCKS sessions against the v4 / v5 proxy: CONNECT by address, by host name (11, 3 and 1 characters) and to refusing / "
+                "unresolvable targets, BIND with a peer connecting, UDP ASSOCIATE with datagrams addressed by IP, by (cached) name, "
+                "mixed, and a datagram shorter than its header; every single-field mutation of the negotiation (version, nmethods, "
+                "method, command, reserved, address type, name length, user id) and an early EOF at every byte position, each "
+                "followed by a fresh valid session; plus random mixes of up to 8 sequential / overlapping sessions with payloads "
+                "cut at random; the client is strict (next message only after the complete previous reply); TLC validates reply "
+                "codes, byte-exact relaying both ways (PRF streams), datagram relaying, command counters and that healthy sessions "
+                "are never closed, against Socks.tla; ASan/UBSan/libstdc++ assertions decide the bounds clause; non-trivial = "
+                "program with a mutated/truncated session or a relay of >= 100 bytes or datagrams; distinct by trace")
+    ctx.assumptions = ["the bounds/crash clause is decided by the sanitizers on the enumerated inputs",
+                       "a malformed request that carries a valid command byte may or may not be counted"]
+    vlib.tlc_mc(ctx, "MCSocks.tla", "MC_Socks.cfg", timeout=600)
+    rng = random.Random(ctx.seed)
+    f1 = ctx.path("sk_sweep.ndjson")
+    socks_sweep(f1)
+    f2 = ctx.path("sk_rand.ndjson")
+    with open(f2, "w") as f:
+        for _ in range(300 if q else 10000):
+            f.write(json.dumps(rand_socks_program(rng)) + "\n")
+    ctx.exhaustive = True
+    for f in (f1, f2):
+        res, total, chunks = vlib.replay(ctx, "record-socks", f, keep=True, env={"VH_WALL_LIMIT": "900"})
+        bad = [r for r in res if not r.get("ok")]
+        cases = vlib.read_lines(f, [r["i"] for r in bad[:50]])
+        for r in bad:
+            ctx.violation("socks." + r["sig"], r.get("msg", ""), cases.get(r["i"], {"index": r["i"]}), {"subcmd": "record-socks"})
+        ctx.evaluations += len(res)
+        traces = [c + ".trace" for c in chunks if os.path.exists(c + ".trace")]
+        out = vlib.validate_traces(ctx, "TraceSocks.tla", "Trace_Socks.cfg", traces)
+        for (nruns, nev, rejected), tp in zip(out, traces):
+            ctx.traces += nruns
+            for rj in rejected:
+                ctx.violation(classify_socks_reject(rj), "trace rejected at event %d: %s | %s" % (rj["at"], rj["event"][:200], (rj.get("state") or "")[:400]),
+                              {"trace": rj["lines"][:300]}, {"kind": "trace", "module": "TraceSocks.tla"})
+            with open(tp) as fh:
+                run = []
+                for line in fh:
+                    if line.startswith('{"e":"Cfg"'):
+                        run = []
+                    run.append(line)
+                    if line.startswith('{"e":"End'):
+                        txt = "".join(run)
+                        if '"valid":false' in run[0] or '"e":"TargetUdp"' in txt or '"n":100' in txt or '"e":"ClientRecv"' in txt:
+                            ctx.nontrivial.add(hash(txt))
+                            ctx.add_sample([json.loads(x) for x in run[:10]])
